@@ -66,6 +66,7 @@ type subscriptionImpl struct {
 	done       bool
 	mu         sync.Mutex // Should be a RWMutex because of the .IsClosed() method, but sync.RWMutex is 30% slower.
 	finalizers []func()
+	running    sync.WaitGroup // the finalizers are being executed by Unsubscribe
 }
 
 // Add receives a finalizer to execute upon unsubscription. When `teardown`
@@ -133,8 +134,11 @@ func (s *subscriptionImpl) Unsubscribe() {
 
 	finalizers := s.finalizers
 	s.finalizers = make([]func(), 0)
+	s.running.Add(1)
 	s.mu.Unlock()
 	verifPoint("subscription:Unsubscribe:unlocked#2", s)
+
+	defer s.running.Done()
 
 	var errs []error
 
@@ -189,6 +193,10 @@ func (s *subscriptionImpl) Wait() {
 	verifPoint("subscription:Wait:added", s)
 	<-ch
 	close(ch)
+
+	// The subscription may have been marked as done by another goroutine that is
+	// still executing the finalizers: wait for the last of them to return.
+	s.running.Wait()
 }
 
 // execFinalizer runs the finalizer and catches any panics, converting them to errors.
